@@ -81,8 +81,9 @@ def check_pair(sink, seed, idx):  # noqa: C901
     elif rel == 'neutral':
         df, _ = gen.neutral_edit(dp, rng)
     elif rel == 'break':
-        df, _ = gen.breaking_edit(dp, rng)
+        df, edit = gen.breaking_edit(dp, rng)
         df = df or dp.copy()
+        sink.count(f'break-edit:{edit}')
     elif rel == 'break-after-suffix':
         df, _ = gen.substitute_leaves(dp, rng, 0.4, 'plain', 5)
         d2, _ = gen.breaking_edit(df, rng)
@@ -197,6 +198,9 @@ def run_shard(sink, tier, seed, shard):
 
 
 def finalize(sink, tier, seed):
+    for e in gen.BREAK_EDITS:
+        if e != 'leaf2none':
+            sink.require(f'break-edit:{e}', 20)
     for c in ('mechanism/plain', 'mechanism/reorder', 'mechanism/reorder-nested', 'mechanism/mismatch'):
         sink.counters[f'cell:{c}'] = sink.cells.get(c, 0)
         sink.require(f'cell:{c}', 5)
